@@ -14,21 +14,21 @@ import Influx.Lemmas.EngineC02
 namespace Influx.Props.C03
 open Influx.Model.Engine Influx.Spec.C03
 
-/-- **NoDeleteInsideSnapshot**: at every delete of the history, the in-flight snapshot store
-    holds no point of the deleted series/range (trivially true when no snapshot is in flight). -/
+/-- the hypothesis of `C03_partial` (`opSafe`, decidable on the history):
+    **NoDeleteInsideSnapshot** — at every delete, the in-flight (or failed, pending) snapshot store
+    holds no point of the deleted series/range (trivially true when no snapshot is pending); and,
+    because restarts are in scope, no retry of a failed snapshot attempt after further writes
+    (that is C02's second known finding: those writes are lost by the next restart). -/
 def safeFrom (s : State) : List Op → Bool
   | [] => true
-  | op :: ops =>
-    (match op with
-     | .delete ss lo hi => decide (SnapClear s ss lo hi)
-     | _ => true) && safeFrom (step s op).1 ops
+  | op :: ops => opSafe s op && safeFrom (step s op).1 ops
 
 /-- operations covered by the theorems of this module: everything C03 speaks about, including
     restarts (a crash at any step boundary, also inside a snapshot commit or inside
     FileStore.replace of a compaction, followed by Engine.Open).  Crashes that tear the
     operation in flight are C02's. -/
 def inScope' : Op → Bool
-  | .write _ | .read .. | .delete .. | .snapBegin | .snapStep | .snapTo _ | .compact .. | .files
+  | .write _ | .read .. | .delete .. | .snapBegin | .snapFail | .snapStep | .snapTo _ | .compact .. | .files
   | .crash false | .compactCrash .. => true
   | _ => false
 
@@ -56,7 +56,7 @@ theorem step_refines {s : State} {h : List Ev} (hg : Good s) (ha : AbsIs3 s h) (
     refine ⟨good_write hg es, fun k t => ?_⟩
     simp only [step, evsOf, abs_stepWrite, cell_puts, ha k t]
   | delete ss lo hi =>
-    simp only [safeFrom, Bool.and_true, decide_eq_true_eq] at hs
+    simp only [safeFrom, opSafe, Bool.and_true, decide_eq_true_eq] at hs
     simp only [evsOf]
     by_cases hb : commitLocked s.phase = true
     · have hstep : step s (.delete ss lo hi) = (s.touch, .blocked) := by simp [step, hb]
@@ -69,8 +69,13 @@ theorem step_refines {s : State} {h : List Ev} (hg : Good s) (ha : AbsIs3 s h) (
       simp only [if_true]
       exact ⟨good_delete hg hs hb', fun k t => by rw [abs_stepDelete hs, cell_del, ha]⟩
   | snapBegin =>
-    exact ⟨good_snapBegin hg, fun k t => by
+    simp only [safeFrom, opSafe, Bool.and_true, decide_eq_true_eq] at hs
+    exact ⟨good_snapBegin hg hs, fun k t => by
       simp only [evsOf, List.append_nil]; rw [← ha k t]; exact abs_stepSnapBegin hg.inv k t⟩
+  | snapFail =>
+    simp only [safeFrom, opSafe, Bool.and_true, decide_eq_true_eq] at hs
+    exact ⟨good_snapFail hg hs, fun k t => by
+      simp only [evsOf, List.append_nil]; rw [← ha k t]; exact abs_stepSnapFail hg.inv k t⟩
   | snapStep =>
     exact ⟨good_snapStep hg, fun k t => by
       simp only [evsOf, List.append_nil]; rw [← ha k t]; exact abs_stepSnapStep hg.inv k t⟩
@@ -146,6 +151,9 @@ theorem checkFrom_runFrom (ops : List Op) : ∀ (s : State) (h : List Ev) (w : W
         simp only [hb, reduceCtorEq, if_false, if_true]
         exact hrest _ _ (by simp [evsOf, hb])
     | snapBegin =>
+      simp only [checkFrom]
+      split <;> exact hrest _ _ (by simp [evsOf])
+    | snapFail =>
       simp only [checkFrom]
       split <;> exact hrest _ _ (by simp [evsOf])
     | snapStep => simp only [checkFrom, Spec.C03.inScope, if_true]; exact hrest _ _ (by simp [evsOf])
